@@ -434,6 +434,11 @@ func (p *c12Plan) resolveQuery(q C12Op, K int) c12Concrete {
 				co.hashes = append(co.hashes, pool[(i*7+q.Picks[1])%len(pool)])
 			}
 		}
+	case "prunenoop":
+		co.hashes = []H{c12Leaf(p.c.Seed^0xdead, 5)}
+		if len(q.Picks) > 0 && q.Picks[0]%3 == 0 {
+			co.hashes = nil
+		}
 	case "verify", "verifyrem":
 		co.hashes = pickFrom(live, q.Picks)
 		co.proof, _ = st.Layout().CanonProof(co.hashes)
@@ -616,6 +621,10 @@ func execQuery(m *u.MapPollard, q c12Concrete, e *c12Exec) string {
 			out = hex.EncodeToString(h[:8])
 		case "missing":
 			out = fmt.Sprint(m.GetMissingPositions(q.targets))
+		case "prunenoop":
+			// Prune of a hash nobody tracks: changes nothing in any state, but takes
+			// the state-changing path through the forest's locking
+			out = fmt.Sprint(m.Prune(q.hashes) != nil)
 		case "write":
 			var b bytes.Buffer
 			var w io.Writer = &b
@@ -1203,7 +1212,7 @@ func (e *c12Engine) ExtraCoverage(s *Stats) map[string]interface{} {
 }
 
 func c12Queries() []string {
-	return []string{"roots", "stump", "numleaves", "treerows", "prove", "verify", "vpartial", "leafpos", "leafposs", "gethash", "missing", "write"}
+	return []string{"roots", "stump", "numleaves", "treerows", "prove", "verify", "vpartial", "leafpos", "leafposs", "gethash", "missing", "write", "prunenoop"}
 }
 
 func genC12(seed uint64) *C12Case {
